@@ -373,8 +373,8 @@ def _reads(x, acc):
 
 
 def taints(ssa):
-    """deficient: versions that depend on a phi with fewer arguments than its block
-    has predecessors (D15). array: versions that depend on an array form (D19)."""
+    """deficient: versions that depend on a phi one of whose arguments is the unversioned
+    name, i.e. a path on which the variable is still unassigned (the repaired D15). array: versions that depend on an array form (D19)."""
     deficient, arrayt = set(), set()
     stmts = []
     for b in ssa[4][1:]:
@@ -384,7 +384,9 @@ def taints(ssa):
                 _reads(st[4], acc)
                 tgt = tuple(st[2][1:4])
                 stmts.append((tgt, acc))
-                if st[4][0] == "phi" and len(st[4][1]) < len(b[4]):
+                if st[4][0] == "phi" and any(a[3] == "-" for a in st[4][1]):
+                    # a path on which the variable is still unassigned (recorded since fix 8b of ssa_impl.rs);
+                    # no claim may rest on such a phi
                     deficient.add(tgt)
                 if acc["array"]:
                     arrayt.add(tgt)
